@@ -286,6 +286,7 @@ def run_tlc_root(tag, base_module, defs, cfg_text, workers=None, timeout=1800, s
     jo = "-DTLA-Library=" + SPEC
     if xss:
         jo += " -Xss1g"
+        e["JDK_JAVA_OPTIONS"] = "-Xss1g"      # the main thread (initial states) gets its stack size from the launcher
     if deque:
         jo += " -Dtlc2.tool.queue.IStateQueue=StateDeque"
     e["JAVA_TOOL_OPTIONS"] = jo
